@@ -61,7 +61,12 @@ fn get_set_cached<T: Clone>(
     key: &std::path::Path,
     value_func: impl FnOnce() -> T,
 ) -> T {
-    let mut lock = cache.lock().expect("cache is poisoned");
+    // A loader that panics (missing or unparsable file) poisons the mutex, but it never leaves the
+    // map half-updated: the entry is only inserted once the value exists. Keep serving the other
+    // entries instead of failing every later call in this process.
+    let mut lock = cache
+        .lock()
+        .unwrap_or_else(std::sync::PoisonError::into_inner);
     lock.entry(key.into()).or_insert_with(value_func).clone()
 }
 
